@@ -8,7 +8,7 @@ static const char* kManifest =
   "rule cc\n  command = cc $in -o $out\n"
   "rule ccf\n  command = cc -MD $in -o $out\n  depfile = $out.d\n"
   "rule link\n  command = ld @$out.rsp\n  rspfile = $out.rsp\n  rspfile_content = $in\n"
-  "rule conf\n  command = configure\n  generator = 1\n"
+  "rule conf\n  command = configure\n  generator = 1\n  depfile = $out.d\n"
   "rule scan\n  command = scan\n"
   "build cfg: conf s\n"
   "build o1: ccf c1\n"
@@ -17,12 +17,15 @@ static const char* kManifest =
   "build all: phony app\n"
   "build hdr.h: phony\n"                      // a source file declared as the output of a phony statement (CMake does this)
   "build lib: cc c3 hdr.h\n"
+  "build dd0: scan c4\n"
+  "build dyn0: cc c4 || dd0\n  dyndep = dd0\n"
   "build dd: scan c4\n"
   "build dyn: cc c4 || dd\n  dyndep = dd\n";
+static const char* kDyndep0 = "ninja_dyndep_version = 1\nbuild dyn0: dyndep\n";
 static const char* kDyndep = "ninja_dyndep_version = 1\nbuild dyn | dyn.imp: dyndep\n";
 static const Scenario kCleanScenario = { "clean", { kManifest, NULL, NULL }, "s c1 c2 c3 c4 hdr.h", "all lib dyn", { { NULL } } };
-static const char* kFiles[] = { "cfg", "o1", "o1.d", "o2", "o2.extra", "app", "app.rsp", "lib", "dd", "dyn", "dyn.imp", "all", "old.o" };
-static const int kNFiles = 13;
+static const char* kFiles[] = { "cfg", "o1", "o1.d", "o2", "o2.extra", "app", "app.rsp", "lib", "dd", "dyn", "dyn.imp", "all", "old.o", "cfg.d", "dd0", "dyn0" };
+static const int kNFiles = 16;
 static bool in_list(const std::vector<std::string>& v, const std::string& x) { for (size_t i = 0; i < v.size(); i++) if (v[i] == x) return true; return false; }
 
 extern "C" int harness_main() {
@@ -30,7 +33,7 @@ extern "C" int harness_main() {
   init_tree(&kCleanScenario);
   // every built file exists, except possibly one; a stray file carries the phony name 'all'; old.o is left over from a removed statement
   int missing = verif_choice("missing_file", kNFiles + 1) - 1;
-  for (int i = 0; i < kNFiles; i++) if (i != missing) { if (std::string(kFiles[i]) == "dd") g_tree->write_text("dd", kDyndep); else g_tree->write(kFiles[i], 500 + i); }
+  for (int i = 0; i < kNFiles; i++) if (i != missing) { if (std::string(kFiles[i]) == "dd") g_tree->write_text("dd", kDyndep); else if (std::string(kFiles[i]) == "dd0") g_tree->write_text("dd0", kDyndep0); else g_tree->write(kFiles[i], 500 + i); }
   State state; SymDisk disk; std::string err; ManifestParser parser(&state, &disk);
   VERIF_ASSERT(parser.Load("build.ninja", &err), "manifest parses");
   BuildConfig config; config.verbosity = BuildConfig::QUIET; config.dry_run = verif_bool("dry_run");
@@ -42,27 +45,28 @@ extern "C" int harness_main() {
   if (mode == 0) {
     bool g = verif_bool("generator_flag");
     rc = cleaner.CleanAll(g);
-    const char* s[] = { "o1", "o1.d", "o2", "o2.extra", "app", "app.rsp", "lib", "dd", "dyn" }; for (int i = 0; i < 9; i++) scope.push_back(s[i]);
+    const char* s[] = { "o1", "o1.d", "o2", "o2.extra", "app", "app.rsp", "lib", "dd", "dyn", "dd0", "dyn0" }; for (int i = 0; i < 11; i++) scope.push_back(s[i]);
     if (dyn_known) scope.push_back("dyn.imp");
-    if (g) scope.push_back("cfg");
+    if (g) { scope.push_back("cfg"); scope.push_back("cfg.d"); }
     verif_reach("clean-all");
   } else if (mode == 1) {
     static const char* kT[] = { "app", "all", "lib", "o2", "dyn", "hdr.h", "c1" };
     int t = verif_choice("target", 7); char buf[16]; strcpy(buf, kT[t]); char* argv[1] = { buf };
     rc = cleaner.CleanTargets(1, argv);
-    if (t == 0 || t == 1) { const char* s[] = { "app", "app.rsp", "o1", "o1.d", "o2", "o2.extra", "cfg" }; for (int i = 0; i < 7; i++) scope.push_back(s[i]); }
+    if (t == 0 || t == 1) { const char* s[] = { "app", "app.rsp", "o1", "o1.d", "o2", "o2.extra", "cfg", "cfg.d" }; for (int i = 0; i < 8; i++) scope.push_back(s[i]); }
     else if (t == 2) scope.push_back("lib");
-    else if (t == 3) { scope.push_back("o2"); scope.push_back("o2.extra"); scope.push_back("cfg"); }
+    else if (t == 3) { scope.push_back("o2"); scope.push_back("o2.extra"); scope.push_back("cfg"); scope.push_back("cfg.d"); }
     else if (t == 4) { scope.push_back("dyn"); scope.push_back("dd"); if (dyn_known) scope.push_back("dyn.imp"); }
     verif_reach("clean-target");
   } else if (mode == 2) {
-    static const char* kR[] = { "cc", "ccf", "link", "conf", "phony" };
-    int r = verif_choice("rule", 5); char buf[16]; strcpy(buf, kR[r]); char* argv[1] = { buf };
+    static const char* kR[] = { "cc", "ccf", "link", "conf", "phony", "scan" };
+    int r = verif_choice("rule", 6); char buf[16]; strcpy(buf, kR[r]); char* argv[1] = { buf };
     rc = cleaner.CleanRules(1, argv);
-    if (r == 0) { const char* s[] = { "o2", "o2.extra", "lib", "dyn" }; for (int i = 0; i < 4; i++) scope.push_back(s[i]); if (dyn_known) scope.push_back("dyn.imp"); }
+    if (r == 0) { const char* s[] = { "o2", "o2.extra", "lib", "dyn", "dyn0" }; for (int i = 0; i < 5; i++) scope.push_back(s[i]); if (dyn_known) scope.push_back("dyn.imp"); }
     else if (r == 1) { scope.push_back("o1"); scope.push_back("o1.d"); }
     else if (r == 2) { scope.push_back("app"); scope.push_back("app.rsp"); }
-    else if (r == 3) scope.push_back("cfg");
+    else if (r == 3) { scope.push_back("cfg"); scope.push_back("cfg.d"); }
+    else if (r == 5) { scope.push_back("dd"); scope.push_back("dd0"); }
     // r == 4 (phony): phony statements build nothing, so nothing is in scope
     verif_reach("clean-rule");
   } else {
